@@ -63,6 +63,13 @@ def r1_r5_reload(ctx):
     for f, cs in fw.items():
         ok, p = cfg.must_pass([first], ok_rets, via_blocks=[c.bb for c in cs]) if cs[0].bb != first else (True, None)
         ctx.ob("R18.1", "reload:all-four-on-success:%s" % f, ok, cs[0].site, "%s is written on every path from the first write to Ok" % f if ok else "a successful reload can skip the update of %s" % f)
+    # success means installed: no Ok return is reachable from the entry without the writes (an early `return Ok(())` — a debounce,
+    # an "unchanged" shortcut — reports a reload that no later handshake will see)
+    for f, cs in fw.items():
+        ok, p = cfg.must_pass([0], ok_rets, via_blocks=[c.bb for c in cs])
+        ctx.ob("R18.1", "reload:ok-only-after-writing:%s" % f, ok, cs[0].site, "every Ok return of reload() has written %s" % f if ok else
+               "reload() can return Ok without having written %s: a reload that is reported successful is not what later handshakes (or the reported information / counters) use" % f,
+               path=None if ok else render_path(body, p)[:14])
     # what is stored
     stores = stores_through(body, o)
     acc_store = [s for s in stores if "self.tls_acceptor" in fmt(s[2])]
